@@ -50,7 +50,8 @@ Shapes == <<
   [s |-> ".2x",          nm |-> "class",    val |-> "2x",   vt |-> "raw",  b |-> FALSE, im |-> FALSE],       \* a class name that starts with a digit
   [s |-> "#3d",          nm |-> "id",       val |-> "3d",   vt |-> "raw",  b |-> FALSE, im |-> FALSE],
   [s |-> "..m1",         nm |-> "class",    val |-> "m1",   vt |-> "raw",  b |-> FALSE, im |-> FALSE, mu |-> TRUE],
-  [s |-> "[]",           nm |-> "",         val |-> NONE,   vt |-> "raw",  b |-> FALSE, im |-> FALSE, empty |-> TRUE] >>   \* 32: an empty attribute set mentions nothing   \* 31: the doubled class shorthand ("multiple"): the attribute
+  [s |-> "[]",           nm |-> "",         val |-> NONE,   vt |-> "raw",  b |-> FALSE, im |-> FALSE, empty |-> TRUE],
+  [s |-> "[w=\"  x\ty  \"]", nm |-> "w",     val |-> "  x\ty  ", vt |-> "dq", b |-> FALSE, im |-> FALSE] >>   \* 33: blanks at both ends of a quoted value and a tab inside it are part of the value   \* 32: an empty attribute set mentions nothing   \* 31: the doubled class shorthand ("multiple"): the attribute
                                                                                                         \* keeps that mark if it is its first mention; names are then mapped through the "class*" entry
 (* a set may hold a second attribute: index of the shape -> the second attribute of that set *)
 Second(k) == IF k = 26 THEN <<[s |-> "", nm |-> "t", val |-> "z", vt |-> "raw", b |-> FALSE, im |-> FALSE]>>
@@ -135,7 +136,7 @@ IsPropKey(x) == x # "" /\ (IsAlpha(At(x, 1)) \/ At(x, 1) \in {"_", "$"}) /\ Word
 Prefixed(val) == IF IsPropKey(val) THEN "styles." \o val ELSE "styles['" \o val \o "']"
 UpperOf(s) == CASE s = "id" -> "ID" [] s = "class" -> "CLASS" [] s = "className" -> "CLASSNAME" [] s = "styleName" -> "STYLENAME" [] s = "t" -> "T" [] s = "d" -> "D"
                 [] s = "m" -> "M" [] s = "disabled" -> "DISABLED" [] s = "u" -> "U" [] s = "e" -> "E" [] s = "for" -> "FOR"
-                [] s = ":class" -> ":CLASS" [] s = "htmlFor" -> "HTMLFOR" [] s = "g" -> "G" [] s = "h" -> "H" [] s = "k" -> "K" [] s = "type" -> "TYPE" [] s = "name" -> "NAME"
+                [] s = ":class" -> ":CLASS" [] s = "htmlFor" -> "HTMLFOR" [] s = "g" -> "G" [] s = "h" -> "H" [] s = "k" -> "K" [] s = "type" -> "TYPE" [] s = "name" -> "NAME" [] s = "w" -> "W"
 EmitOne(a, row) ==       \* <<>> when the attribute is dropped, else << [n, q, v] >>; q = NONE: printed without "=" part
     LET hasVal == a.val # NONE /\ a.val # ""
         nm0 == MapName(row.syntax, a.nm, a.mu)
